@@ -9,6 +9,7 @@ Part 2 (module identity: regenerated shape facts + injectivity of the hashed enc
 import Wz.Model.Sizer
 import Wz.Proofs.C12_ModuleID
 import Wz.Proofs.C12_Cache
+import Wz.Gen.CallerCtx
 
 namespace Wz.C12
 open Wz.Gen.Memory Wz.Model.Memory Wz.Model.Sizer
@@ -249,5 +250,19 @@ theorem disk_hit_rebinds :
       [.compiled, .closed, .compiled, .ran 7 [some 1]] := by decide
 
 end Cache
+
+
+/-! ### function listeners are passive: the listener variants of the Go-call handlers -/
+
+/-- **Regenerated obligation** (wazevo/call_engine.go, `callWithStack`): attaching a listener to a host function
+switches the exit code from `CallGo[Module]Function` to `…WithListener`.  The two handlers must hand the SAME
+module to the host function - the caller's (`c.callerModuleInstance()`), never the module whose export the
+embedder called - otherwise attaching a listener changes what a module-aware host function sees (a seeded
+change did exactly that for guest modules other than the entry module). -/
+theorem listener_variant_passes_same_module :
+    Wz.Gen.CallerCtx.goCalls =
+      [("ExitCodeCallGoFunction", "-"), ("ExitCodeCallGoFunctionWithListener", "-"),
+       ("ExitCodeCallGoModuleFunction", "callerModuleInstance()"),
+       ("ExitCodeCallGoModuleFunctionWithListener", "callerModuleInstance()")] := by decide
 
 end Wz.C12
